@@ -184,9 +184,10 @@ impl NodeDrive {
             }
         }
 
+        // Values first: a key record must never reach the disk before the value it points at
+        values_file.flush().unwrap();
         keys_file.flush().unwrap();
         keys_file_write.flush().unwrap();
-        values_file.flush().unwrap();
 
         write_metadata_file(db_name, db);
         log::debug!("snapshoted {} keys", changed_keys);
